@@ -19,9 +19,9 @@ COMMON_ASSUMPTIONS = [
 EXPECTED_THEOREMS = {
     "C13": ["read_is_a_socket_read", "every_size_is_possible", "line_reader_oracle", "head_reader_oracle", "small_body_oracle", "chunked_zero_counterexample", "chunk_crlf_reader_counterexample", "body_reader_oracle_is_false", "body_reader_oracle_partial", "body_reader_oracle_nonchunked", "chunk_crlf_counterexample", "runO_eq_run_is_false", "segmentation_independent_is_false", "runO_eq_run_masked", "runO_eq_run_partial", "runO_eq_run_partial_simple", "segmentation_independent_masked", "segmentation_independent_partial"],
     "C01": ["seq_order", "no_overtaking", "dropped_prefix_closed", "sock_is_prefix", "flush_delivers", "first_alive_has_turn", "par_writers_are_seq", "concurrent_handlers_prefix", "concurrent_handlers_same_bytes", "concurrent_terminal_is_finished", "concurrent_stuck_only_when_open"],
-    "C06": ["one_final_response", "dropped_gets_500", "nothing_after_consumption", "interim_only_first", "finish_status_single", "drop_releases_successor"],
+    "C06": ["one_final_response", "dropped_gets_500", "nothing_after_consumption", "interim_only_first", "finish_status_single", "drop_releases_successor", "pipeline_all_delivered", "pipeline_final_statuses", "pipeline_one_final_response_each"],
     "C08": ["waiting_count_exact", "queued_tasks_are_claimed", "every_queued_task_can_start", "dispatch_never_blocks", "task_conservation", "task_started_at_most_once", "whole_pool_reachable", "whole_connection_never_waits_for_another"],
-    "C11": ["released_at_parse_iff", "small_body_limit", "buffered_is_small", "ahead_step_small", "ahead_blocks_only_on_streamed_body", "ahead_heads_prefix_of_run", "small_body_never_owns_stream", "streamed_body_owns_stream", "par_parse_enabled", "par_stream_free_when_owners_gone"],
+    "C11": ["released_at_parse_iff", "small_body_limit", "buffered_is_small", "ahead_step_small", "ahead_blocks_only_on_streamed_body", "ahead_heads_prefix_of_run", "small_body_never_owns_stream", "streamed_body_owns_stream", "par_parse_enabled", "par_stream_free_when_owners_gone", "smallBodied_framing", "streamedBodied_framing", "pipeline_all_available_unanswered", "pipeline_blocked_exactly_at_first_streamed_head", "pipeline_blocked_exactly_at_first_streamed", "successors_wait_for_streamed_body", "successors_delivered_after_streamed_body", "streamed_body_delays_successors_only_until_handled"],
     "C14": ["declared_length_allocation_bounded", "accepted_content_length_fits", "accepted_chunk_size_fits", "discard_read_size_bounded", "limited_read_request_bounded", "te_comparison_consistent", "nan_is_rejected", "run_always_ends_regularly"],
     "C15": ["respond_swallows_client_errors", "incomplete_head_not_delivered", "no_terminator_no_head", "incomplete_small_body_not_delivered", "incomplete_small_body_not_delivered_for", "head_in_prefix_is_head", "body_read_never_blocks_when_closed", "read_up_to_never_blocks_when_closed", "drain_terminates_when_closed", "handle_never_blocks_when_closed", "prefix_delivery"],
     "C20": ["min_threads_value", "idle_period_value", "active_count_exact", "untimed_waiters_bounded", "idle_pool_at_baseline", "timed_out_worker_exits", "retire_no_task_lost", "drop_wakes_everybody", "accept_loop_stops", "handed_out_still_answerable", "no_accept_after_exit", "whole_drop_reclaims_every_worker", "whole_idle_returns_to_baseline", "whole_drop_reclaim_needs_thread_bound"],
@@ -33,7 +33,7 @@ EXPECTED_THEOREMS = {
     "C10": ["request_line_needs_three_fields", "unknown_version_rejected", "version_table", "header_without_colon_rejected", "bad_request_line_outcome", "bad_header_outcome", "non_ascii_outcome", "non_ascii_line", "unsupported_expect_outcome", "expect_classification", "version_too_high_outcome", "too_high_versions", "earlier_responses_first", "pipeline_then_bad_request_line", "pipeline_then_eof", "refused_step", "pipeline_with_refused_requests", "pipeline_with_refused_requests_delivery", "pipeline_with_refused_requests_exact", "refused_requests_do_not_end_the_connection", "refusedRequest_of_framingOf"],
     "C16": ["ws_in_name_rejected", "ws_before_colon_rejected", "leading_ws_rejected", "bad_content_length_rejected", "strict_content_length_iff", "non_digit_rejected", "rejected_line_fails_head", "bad_content_length_outcome"],
     "C12": ["last_request_decision", "nothing_after_last", "stays_open", "close_after_client_eof", "trace_extends_state", "closingRequest_covers", "closing_run", "pipeline_then_closing_request", "bytes_after_closing_request_ignored", "open_pipeline_waits"],
-    "C18": ["continue_exactly_once", "continue_is_flushed", "expect_recognised", "no_expect_no_continue", "expect_body_not_preread"],
+    "C18": ["continue_exactly_once", "continue_is_flushed", "expect_recognised", "no_expect_no_continue", "expect_body_not_preread", "framing_expectation", "pipeline_statuses", "no_expectation_only_finals", "no_expectation_no_interim", "interim_count_general", "interim_count", "non_interim_statuses"],
     "C04": ["pieces_irrelevant", "dechunk_enchunk", "no_body_bytes", "client_roundtrip", "oracle_of_roundtrip"],
     "C05": ["default_threshold", "choose_eq_spec", "never_chunked_for_old_or_nobody", "framing_headers"],
     "C19": ["headers_policy", "headers_policy_append", "declared_length", "protected_never_stored",
